@@ -56,6 +56,50 @@ def check(ctx):
         nf.diff(par.value.nf, "pressure"), der.value.nf,
     )
 
+    # ---- C13-i the hand-coded derivatives are closed forms: none of them evaluates a function of the package at two
+    # arguments that differ by a constant step and subtracts (a finite difference is the derivative only in real
+    # arithmetic - for a quadratic parent, say; in doubles the subtraction cancels all but ~ eps * |f| / (h |f'|) digits,
+    # which the property's "equal the derivatives of their parents" to rounding error does not survive)
+    for dq in (WATER + "b_water_McCain_dp", OIL + "db_o_dgor_Standing", OIL + "dgor_dpressure_Standing"):
+        fd = P.func(dq)
+        found = []
+        for p_ in run(ctx, dq):
+            calls = {}
+            for e in p_.events:
+                if e.kind == "int_call":
+                    calls.setdefault(e.data["callee"], []).append(e)
+            for callee, evs in calls.items():
+                for i1 in range(len(evs)):
+                    for i2 in range(i1 + 1, len(evs)):
+                        a1, a2 = evs[i1].data["args"], evs[i2].data["args"]
+                        if set(a1) != set(a2):
+                            continue
+                        shifted = []
+                        same = True
+                        for k in a1:
+                            if not (isinstance(a1[k], Num) and isinstance(a2[k], Num)):
+                                same = same and repr(a1[k]) == repr(a2[k])
+                                continue
+                            d = nf.sub(a1[k].nf, a2[k].nf)
+                            if not d:
+                                continue
+                            if nf.is_const(d):
+                                shifted.append(f"{k}: step {nf.show(d, 30)}")
+                            else:
+                                same = False
+                        if same and len(shifted) == 1:
+                            found.append(f"{callee.split('.')[-1]} at two arguments ({shifted[0]}), lines {evs[i1].line}/{evs[i2].line}")
+        ctx.check(
+            not found, "C13-i", dq + ":closed form", fd.where(),
+            "the derivative is a closed-form expression: no package function is evaluated at two arguments a constant step apart (finite differencing)",
+            signature="finite difference " + "; ".join(sorted(set(found)))[:140], differences=sorted(set(found))[:4],
+        )
+
+    # ---- C13-j one bubble point: the derivative arms and their parents branch at the same floating-point number
+    from .common import check_bubble_threshold
+
+    check_bubble_threshold(ctx, "C13-j", [OIL + n_ for n_ in ("solution_gor_Standing", "dgor_dpressure_Standing", "oil_compressibility_Standing", "b_o_Standing")])
+
     # ---- C13-b dRs/dp
     parent = _arms(ctx, OIL + "solution_gor_Standing")
     deriv = _arms(ctx, OIL + "dgor_dpressure_Standing")
